@@ -120,7 +120,8 @@ class ParserEngine(ParserCore, CanParse):
         if ri.should_trace:
             self.callstack.append(ri)
         self.next_token(ri)
-        key = self.memokey()
+        # NOTE: not self.memokey(): a @nostak rule is not on the call stack
+        key = MemoKey(self.pos, ri)
 
         pos = self.pos
         try:
